@@ -213,18 +213,25 @@ def interleave : List Rat → List Rat → List Rat
   | as, [] => as
   | [], _ => []
 
-/-- sample points of the Simpson bins (2n+1 points for n centres) -/
-def simpsPoints (symmetric : Bool) (c : List Rat) : List Rat :=
-  let x := interleave c (midpoints c)
+/-- `float → int` cast of NumPy assignment into an integer array: truncation toward zero -/
+def truncQ (q : Rat) : Rat := if 0 ≤ q then ((q.floor : Int) : Rat) else ((q.ceil : Int) : Rat)
+
+/-- sample points of the Simpson bins (2n+1 points for n centres). `intC`: the centres were given as an *integer-dtype*
+array, so the interleaved grid `x = np.empty(…, dtype=wave.dtype)` is an integer array and the mid-points (and, for
+`inside`, the two inserted quarter points) are truncated when stored — modelled as the code does it (known finding
+KF-C15-bin-integer-centres) -/
+def simpsPoints (symmetric : Bool) (c : List Rat) (intC : Bool := false) : List Rat :=
+  let tr := fun q : Rat => if intC then truncQ q else q
+  let x := interleave c ((midpoints c).map tr)
   match c, c.getLast?, (c.dropLast).getLast? with
   | c0 :: c1 :: _, some cl, some cp =>
     if symmetric then (c0 - (c1 - c0) / 2) :: x ++ [cl + (cl - cp) / 2]
     else
       match x with
       | x0 :: x1 :: rest =>
-        let x' := x0 :: (x0 + (x1 - x0) / 2) :: x1 :: rest
+        let x' := x0 :: tr (x0 + (x1 - x0) / 2) :: x1 :: rest
         match x'.getLast?, (x'.dropLast).getLast? with
-        | some l, some p => x'.dropLast ++ [l + (p - l) / 2, l]
+        | some l, some p => x'.dropLast ++ [tr (l + (p - l) / 2), l]
         | _, _ => []
       | _ => []
   | _, _, _ => []
@@ -237,18 +244,33 @@ def simpsBins : List Rat → List Rat → List Rat
 
 def sumL (l : List Rat) : Rat := l.foldl (· + ·) 0
 
-/-- `Spectrum.bin(centres, interp_method, ends, preserve_power, fill_value)` in the spectrum's own unit.
-`norm` = the integral used by `preserve_power` (`none`: no normalisation) -/
-def bin (s : Spectrum) (simps symmetric : Bool) (fillL fillR : Rat) (norm : Option Rat) (c : List Rat) :
+/-- the un-normalised bins of `Spectrum.bin` in the spectrum's own unit -/
+def binRaw (s : Spectrum) (simps symmetric : Bool) (fillL fillR : Rat) (c : List Rat) (intC : Bool := false) :
     Except Err (List Rat) :=
   if c.length < 2 then .error .valueError else
-  let x := if simps then simpsPoints symmetric c else trapzEdges symmetric c
+  let x := if simps then simpsPoints symmetric c intC else trapzEdges symmetric c
   match sample s fillL fillR x with
   | .error e => .error e
-  | .ok f =>
-    let bins := if simps then simpsBins x f else trapzBins x f
-    match norm with
+  | .ok f => .ok (if simps then simpsBins x f else trapzBins x f)
+
+/-- the integral used by `preserve_power`: `self.integrate(min(centres), max(centres), method)`; for the trapezoid
+method it is the model's own `integrate`, for Simpson (`scipy.integrate.simpson`, not modelled) it is supplied -/
+def binNorm (s : Spectrum) (c : List Rat) (given : Option Rat) : Rat :=
+  match given with
+  | some I => I
+  | none => match minL c, maxL c with
+    | some a, some b => integrate s a b
+    | _, _ => 0
+
+/-- `Spectrum.bin(centres, interp_method, ends, preserve_power, fill_value)` in the spectrum's own unit.
+`pp = none`: preserve_power=False; `pp = some given`: normalise by `binNorm s c given / Σ bins` -/
+def bin (s : Spectrum) (simps symmetric : Bool) (fillL fillR : Rat) (pp : Option (Option Rat)) (c : List Rat)
+    (intC : Bool := false) : Except Err (List Rat) :=
+  match binRaw s simps symmetric fillL fillR c intC with
+  | .error e => .error e
+  | .ok bins =>
+    match pp with
     | none => .ok bins
-    | some I => .ok (bins.map (· * (I / sumL bins)))
+    | some given => .ok (bins.map (· * (binNorm s c given / sumL bins)))
 
 end Lentil.Spec
